@@ -13,6 +13,10 @@ the per-index length/offset with Go's uint32 truncation made explicit.
      and of boundary + seeded random large pairs on the real functions; the
      large observations are written to GeoObs.tla and Apalache checks them
      against the operators in arbitrary precision.
+  4. Real transfers (driver xfer-special): chunk sizes of several MiB up to
+     64 MiB with sizes around their multiples, and resumed transfers over
+     metadata left by an attempt with another chunk size - the metadata the
+     transfer works with must carry the transfer's chunk size and count.
 The receiver-side count (handleFileBegin) is bound through the transfer
 drivers (FileResumeInfo.TotalChunks / recv.filebegin hook) in C01/C04.
 """
@@ -67,6 +71,13 @@ def run(tier, seed):
     tot = vlib.merge_results(results)
     for viol in tot['violations']:
         v.violation(viol['sig'], viol.get('replay'))
+    # 4. the tiles real transfers read and write, judged by their effect: chunk sizes of several MiB up to 64 MiB
+    # (the sender's block-wise reads), and resumed transfers over metadata left by an attempt with another chunk
+    # size (the count the metadata carries must be the transfer's)
+    sp = vlib.run_vh_sharded(['xfer-special', '-seed', str(seed), '-groups', 'geometry,rechunk'], 8, timeout=1800)
+    for viol in sp['violations']:
+        if viol['sig'].get('property') == 'C19':
+            v.violation(viol['sig'], viol.get('replay'))
     if not obs_ok:
         # real outputs disagree with the spec operators: conformance drift unless the oracle above flagged it
         tot['drift'] += 1
@@ -81,6 +92,7 @@ def run(tier, seed):
         apalache=dict(theorems=apa, range="size 0..10 TiB, chunk 1..2^32-1, idx 0..2^32, Word 2^32",
                       observation_rows_checked=obs_rows, observations_agree=obs_ok),
         tlc=dict(domain=dom, rows=r['edges'], negative_control_refuted=rn['violated']),
+        real_transfers=dict(runs=sp['behaviours'], outcomes=sp['extra'].get('outcomes')),
         replay=dict(pairs_walked=tot['behaviours'], function_evaluations=tot['steps'], drift=tot['drift']),
     )
     v.assumptions = ["Apalache/z3 for the symbolic theorems", "the receiver-side expression is bound by the transfer drivers, not here",
